@@ -242,6 +242,11 @@ def run(tier, seed):
     add(PLAY_HEAD % ("  cleanup false", "ok"), [], True, "the initial cleanup fails", {"site": "initial-cleanup"})
     add(PLAY_HEAD % ("  cleanup if [ -e ran ]; then exit 1; fi; touch ran", "ok"), [], True, "the final cleanup fails", {"site": "final-cleanup"})
     add(PLAY_HEAD % ("  spotlight exit 3", "ok"), [], True, "the spotlight fails", {"site": "spotlight"})
+    # the spotlight's shell fails at once while a child it left in the background holds its output: the runner only learns
+    # the exit status when the output closes, i.e. when the play is over, and the spotlight manager drops it then (known
+    # finding: the failure goes unreported)
+    add(PLAY_HEAD % ("  spotlight sleep 2.0911 & exit 3", "ok"), [], True, "the spotlight's shell fails while its background child holds the output",
+        {"site": "spotlight", "shape": "shell failed, child holds the output"})
     add(PLAY_HEAD % ("", "ok"), [], False, "nothing goes wrong", {"site": "none"})
     add(PLAY_HEAD % ("", "ok") + "audience\n  bob audits throughout\n  bob expects always: t < 'a'\nend\n", [], True,
         "the predicate fails to evaluate", {"site": "eval-error"})
@@ -321,7 +326,7 @@ def run(tier, seed):
     known_o = [f for f in ofail if rep.match_known(f["tag"]) is not None]
     new_o = [f for f in ofail if rep.match_known(f["tag"]) is None]
     rep.obligation("O-C03: last-clause-wins on the real parser; exit status / Foul of the real binary on %d plays = specification%s" % (
-                       len(plays), "; the Foul flag of result.js after a failed upload excepted (known finding, fails as recorded)" if known_o else ""),
+                       len(plays), "; the inputs of the known findings excepted (they fail as recorded: %s)" % ", ".join(sorted({json.dumps(f["tag"], sort_keys=True) for f in known_o})) if known_o else ""),
                    "O", not new_o, json.dumps(new_o[:2], default=str)[:1800])
     seen = set()
     for f in ofail:
